@@ -24,8 +24,9 @@ pub struct AState {
 
 impl AState {
     pub open spec fn occ(self, i: u32) -> bool { self.alive.contains(i) || self.raised.contains(i) }
-    pub open spec fn legit(self, e: Entity) -> bool { 1 <= e.1.0@ <= (self.hw)(e.0) }
-    pub open spec fn current(self, e: Entity) -> bool { self.occ(e.0) && e.1.0@ == (self.hw)(e.0) }
+    pub open spec fn hwv(self, i: u32) -> int { (self.hw)(i) }
+    pub open spec fn legit(self, e: Entity) -> bool { 1 <= e.1.0@ <= self.hwv(e.0) }
+    pub open spec fn current(self, e: Entity) -> bool { self.occ(e.0) && e.1.0@ == self.hwv(e.0) }
 
     pub open spec fn next_index(self) -> u32 {
         if self.free.len() > 0 { self.free.last() } else { self.max_id as u32 }
@@ -35,16 +36,16 @@ impl AState {
         else { AState { max_id: self.max_id + 1, ..self } }
     }
     // the handle every creation path returns
-    pub open spec fn created(self) -> (u32, int) { (self.next_index(), (self.hw)(self.next_index()) + 1) }
+    pub open spec fn created(self) -> (u32, int) { (self.next_index(), self.hwv(self.next_index()) + 1) }
     pub open spec fn create_now(self) -> AState {
         let i = self.next_index();
         let s = self.take_index();
-        AState { hw: |j: u32| if j == i { (s.hw)(i) + 1 } else { (s.hw)(j) }, alive: s.alive.insert(i), ..s }
+        AState { hw: |j: u32| if j == i { s.hwv(i) + 1 } else { s.hwv(j) }, alive: s.alive.insert(i), ..s }
     }
     pub open spec fn create_deferred(self) -> AState {
         let i = self.next_index();
         let s = self.take_index();
-        AState { hw: |j: u32| if j == i { (s.hw)(i) + 1 } else { (s.hw)(j) }, raised: s.raised.insert(i), ..s }
+        AState { hw: |j: u32| if j == i { s.hwv(i) + 1 } else { s.hwv(j) }, raised: s.raised.insert(i), ..s }
     }
     pub open spec fn kill_one(self, e: Entity) -> AState {
         AState { alive: self.alive.remove(e.0), raised: self.raised.remove(e.0), killed: self.killed.remove(e.0), ..self }
@@ -81,7 +82,7 @@ impl AState {
     }
     // handles returned by merge: the killed indices ascending, each with its current generation
     pub open spec fn merged_out(self) -> Seq<(u32, int)> {
-        sorted_seq(self.killed).map_values(|i: u32| (i, (self.hw)(i)))
+        sorted_seq(self.killed).map_values(|i: u32| (i, self.hwv(i)))
     }
 
     pub open spec fn core_eq(self, o: AState) -> bool {
@@ -158,7 +159,7 @@ pub proof fn lemma_alive_spec_is_current(a: &Allocator, e: Entity)
     ensures a.alive_spec(e) == a.abs().current(e),
 {
     let s = a.abs();
-    assert((s.hw)(e.0) == a.hw(e.0));
+    assert(s.hwv(e.0) == a.hw(e.0));
     assert(s.occ(e.0) == a.occ(e.0));
     if !a.occ(e.0) {
         if a.gid(e.0 as int) == 0 {
@@ -168,20 +169,37 @@ pub proof fn lemma_alive_spec_is_current(a: &Allocator, e: Entity)
 }
 
 // ---------------------------------------------------------------- kill_fold facts
+pub open spec fn in_prefix(d: Seq<Entity>, n: nat, i: u32) -> bool {
+    exists|k: int| 0 <= k < n && k < d.len() && (#[trigger] d[k]).0 == i
+}
+
+pub proof fn lemma_in_prefix_step(d: Seq<Entity>, n: nat, i: u32)
+    requires 0 < n <= d.len(),
+    ensures in_prefix(d, n, i) == (in_prefix(d, (n - 1) as nat, i) || d[n - 1].0 == i),
+{
+    if in_prefix(d, n, i) {
+        let k = choose|k: int| 0 <= k < n && k < d.len() && (#[trigger] d[k]).0 == i;
+        if k < n - 1 { assert(in_prefix(d, (n - 1) as nat, i)); }
+    }
+    if in_prefix(d, (n - 1) as nat, i) {
+        let k = choose|k: int| 0 <= k < n - 1 && k < d.len() && (#[trigger] d[k]).0 == i;
+        assert(d[k].0 == i);
+    }
+    if d[n - 1].0 == i {
+        assert(in_prefix(d, n, i));
+    }
+}
+
+// kill_fold removes exactly the indices of d[0..n] from alive, raised and killed; nothing else moves
 pub proof fn lemma_kill_fold_frame(s: AState, d: Seq<Entity>, n: nat)
     requires n <= d.len(),
     ensures
         s.kill_fold(d, n).hw == s.hw,
         s.kill_fold(d, n).free == s.free,
         s.kill_fold(d, n).max_id == s.max_id,
-        forall|i: u32| #![trigger s.kill_fold(d, n).alive.contains(i)] s.kill_fold(d, n).alive.contains(i) ==> s.alive.contains(i),
-        forall|i: u32| #![trigger s.kill_fold(d, n).raised.contains(i)] s.kill_fold(d, n).raised.contains(i) ==> s.raised.contains(i),
-        forall|i: u32| #![trigger s.kill_fold(d, n).killed.contains(i)] s.kill_fold(d, n).killed.contains(i) ==> s.killed.contains(i),
-        forall|i: u32| #![trigger s.kill_fold(d, n).occ(i)] !ids(d.subrange(0, n as int)).contains(i) ==> (s.kill_fold(d, n).occ(i) == s.occ(i)
-            && s.kill_fold(d, n).alive.contains(i) == s.alive.contains(i)
-            && s.kill_fold(d, n).raised.contains(i) == s.raised.contains(i)
-            && s.kill_fold(d, n).killed.contains(i) == s.killed.contains(i)),
-        forall|i: u32| #![trigger s.kill_fold(d, n).occ(i)] ids(d.subrange(0, n as int)).contains(i) ==> !s.kill_fold(d, n).occ(i),
+        forall|i: u32| #![trigger s.kill_fold(d, n).alive.contains(i)] s.kill_fold(d, n).alive.contains(i) == (s.alive.contains(i) && !in_prefix(d, n, i)),
+        forall|i: u32| #![trigger s.kill_fold(d, n).raised.contains(i)] s.kill_fold(d, n).raised.contains(i) == (s.raised.contains(i) && !in_prefix(d, n, i)),
+        forall|i: u32| #![trigger s.kill_fold(d, n).killed.contains(i)] s.kill_fold(d, n).killed.contains(i) == (s.killed.contains(i) && !in_prefix(d, n, i)),
     decreases n,
 {
     if n > 0 {
@@ -189,24 +207,45 @@ pub proof fn lemma_kill_fold_frame(s: AState, d: Seq<Entity>, n: nat)
         let p = s.kill_fold(d, (n - 1) as nat);
         let q = s.kill_fold(d, n);
         assert(q == p.kill_one(d[n - 1]));
-        let a = ids(d.subrange(0, n as int));
-        let b = ids(d.subrange(0, n - 1));
-        assert(a =~= b.push(d[n - 1].0));
-        assert forall|i: u32| !a.contains(i) implies !b.contains(i) && i != d[n - 1].0 by {
-            if b.contains(i) {
-                let k = choose|k: int| 0 <= k < b.len() && b[k] == i;
-                assert(a[k] == i);
-            }
-            if i == d[n - 1].0 {
-                assert(a[n - 1] == i);
-            }
+        assert forall|i: u32| #![trigger q.alive.contains(i)] q.alive.contains(i) == (s.alive.contains(i) && !in_prefix(d, n, i)) by {
+            lemma_in_prefix_step(d, n, i);
+            assert(q.alive.contains(i) == (p.alive.contains(i) && i != d[n - 1].0));
         }
-        assert forall|i: u32| a.contains(i) implies b.contains(i) || i == d[n - 1].0 by {
-            let k = choose|k: int| 0 <= k < a.len() && a[k] == i;
-            if k < n - 1 { assert(b[k] == i); }
+        assert forall|i: u32| #![trigger q.raised.contains(i)] q.raised.contains(i) == (s.raised.contains(i) && !in_prefix(d, n, i)) by {
+            lemma_in_prefix_step(d, n, i);
+            assert(q.raised.contains(i) == (p.raised.contains(i) && i != d[n - 1].0));
+        }
+        assert forall|i: u32| #![trigger q.killed.contains(i)] q.killed.contains(i) == (s.killed.contains(i) && !in_prefix(d, n, i)) by {
+            lemma_in_prefix_step(d, n, i);
+            assert(q.killed.contains(i) == (p.killed.contains(i) && i != d[n - 1].0));
         }
     } else {
-        assert(ids(d.subrange(0, 0)) =~= Seq::<u32>::empty());
+        assert forall|i: u32| !in_prefix(d, 0, i) by { }
+    }
+}
+
+// indices killed by a successful prefix are pairwise distinct (each was occupied when its turn came)
+pub proof fn lemma_kill_fold_distinct(s: AState, d: Seq<Entity>, n: nat)
+    requires n <= d.len(), s.kill_ok_upto(d, n),
+    ensures
+        forall|x: int, y: int| 0 <= x < y < n ==> (#[trigger] d[x]).0 != (#[trigger] d[y]).0,
+        forall|x: int| 0 <= x < n ==> s.occ((#[trigger] d[x]).0),
+{
+    assert forall|x: int, y: int| 0 <= x < y < n implies (#[trigger] d[x]).0 != (#[trigger] d[y]).0 by {
+        let f = s.kill_fold(d, y as nat);
+        assert(f.current(d[y]));
+        lemma_kill_fold_frame(s, d, y as nat);
+        if d[x].0 == d[y].0 {
+            assert(in_prefix(d, y as nat, d[y].0));
+            assert(!f.alive.contains(d[y].0));
+            assert(!f.raised.contains(d[y].0));
+        }
+    }
+    assert forall|x: int| 0 <= x < n implies s.occ((#[trigger] d[x]).0) by {
+        let f = s.kill_fold(d, x as nat);
+        assert(f.current(d[x]));
+        lemma_kill_fold_frame(s, d, x as nat);
+        assert(f.alive.contains(d[x].0) || f.raised.contains(d[x].0));
     }
 }
 
@@ -262,9 +301,9 @@ pub open spec fn step_ok(pre: AState, st: Step, post: AState, exact: bool) -> bo
 
 // abstract counterpart of Allocator::wf / wf_complete
 pub open spec fn ainv(s: AState) -> bool {
-    &&& forall|i: u32| #![trigger (s.hw)(i)] (s.hw)(i) >= 0
-    &&& forall|i: u32| #![trigger s.occ(i)] s.occ(i) ==> (i as nat) < s.max_id && (s.hw)(i) >= 1
-    &&& forall|i: u32| #![trigger (s.hw)(i)] (i as nat) >= s.max_id ==> (s.hw)(i) == 0
+    &&& forall|i: u32| #![trigger s.hwv(i)] s.hwv(i) >= 0
+    &&& forall|i: u32| #![trigger s.occ(i)] s.occ(i) ==> (i as nat) < s.max_id && s.hwv(i) >= 1
+    &&& forall|i: u32| #![trigger s.hwv(i)] (i as nat) >= s.max_id ==> s.hwv(i) == 0
     &&& forall|i: u32| #![trigger s.killed.contains(i)] s.killed.contains(i) ==> s.occ(i)
     &&& free_ok(s)
     &&& s.max_id < 0x100_0000
@@ -287,185 +326,202 @@ pub open spec fn history(states: Seq<AState>, steps: Seq<Step>, exact: bool) -> 
 
 pub open spec fn is_create(st: Step) -> bool { st is CreateNow || st is CreateDeferred }
 
+pub proof fn lemma_step_inv_create(pre: AState, now: bool)
+    requires ainv(pre), pre.max_id < 0x100_0000 - 1,
+    ensures ({
+        let post = if now { pre.create_now() } else { pre.create_deferred() };
+        let i = pre.next_index();
+        &&& ainv(post)
+        &&& !pre.occ(i) && post.occ(i) && post.hwv(i) == pre.hwv(i) + 1
+        &&& (i as nat) < post.max_id
+        &&& forall|j: u32| #![trigger post.hwv(j)] j != i ==> post.hwv(j) == pre.hwv(j)
+        &&& forall|j: u32| #![trigger post.occ(j)] j != i ==> post.occ(j) == pre.occ(j)
+        &&& forall|j: u32| #![trigger post.alive.contains(j)] j != i ==> post.alive.contains(j) == pre.alive.contains(j)
+        &&& forall|j: u32| #![trigger post.raised.contains(j)] j != i ==> post.raised.contains(j) == pre.raised.contains(j)
+        &&& post.killed == pre.killed
+    }),
+{
+    let post = if now { pre.create_now() } else { pre.create_deferred() };
+    let i = pre.next_index();
+    let n = pre.free.len() as int;
+    if n > 0 {
+        assert(pre.free[n - 1] == i);
+        assert((i as nat) < pre.max_id && !pre.occ(i));
+        assert(post.free == pre.free.drop_last());
+    } else {
+        assert(i as nat == pre.max_id);
+        assert(!pre.occ(i)) by { if pre.occ(i) { assert((i as nat) < pre.max_id); } }
+        assert(pre.hwv(i) == 0);
+    }
+    assert(post.hwv(i) == pre.hwv(i) + 1);
+    assert forall|j: u32| #![trigger post.hwv(j)] j != i implies post.hwv(j) == pre.hwv(j) by {}
+    assert forall|j: u32| #![trigger post.hwv(j)] post.hwv(j) >= 0 by { assert(pre.hwv(j) >= 0); assert(pre.hwv(i) >= 0); }
+    assert forall|j: u32| #![trigger post.occ(j)] post.occ(j) implies (j as nat) < post.max_id && post.hwv(j) >= 1 by {
+        assert(pre.hwv(i) >= 0);
+        if j != i { assert(pre.occ(j)); }
+    }
+    assert forall|j: u32| #![trigger post.hwv(j)] (j as nat) >= post.max_id implies post.hwv(j) == 0 by {
+        assert(j != i);
+        assert(pre.hwv(j) == 0);
+    }
+    assert forall|j: u32| #![trigger post.killed.contains(j)] post.killed.contains(j) implies post.occ(j) by {
+        assert(pre.killed.contains(j));
+        assert(pre.occ(j));
+    }
+    assert forall|x: int| 0 <= x < post.free.len() implies ((#[trigger] post.free[x]) as nat) < post.max_id && !post.occ(post.free[x]) by {
+        assert(post.free[x] == pre.free[x]);
+        assert((pre.free[x] as nat) < pre.max_id && !pre.occ(pre.free[x]));
+        if n > 0 { assert(pre.free[x] != pre.free[n - 1]); }
+    }
+    assert forall|x: int, y: int| 0 <= x < y < post.free.len() implies post.free[x] != post.free[y] by {
+        assert(post.free[x] == pre.free[x] && post.free[y] == pre.free[y]);
+    }
+    assert(free_ok(post));
+}
+
+pub proof fn lemma_step_inv_kill(pre: AState, d: Seq<Entity>, k: nat, post: AState, exact: bool)
+    requires ainv(pre), step_ok(pre, Step::KillNow { d, k }, post, exact),
+    ensures
+        ainv(post),
+        forall|i: u32| #![trigger post.hwv(i)] post.hwv(i) == pre.hwv(i),
+        forall|i: u32| #![trigger post.occ(i)] post.occ(i) ==> pre.occ(i),
+{
+    lemma_kill_fold_frame(pre, d, k);
+    lemma_kill_fold_distinct(pre, d, k);
+    let f = pre.kill_fold(d, k);
+    assert(post.hw == f.hw && f.hw == pre.hw);
+    assert forall|i: u32| #![trigger post.hwv(i)] post.hwv(i) == pre.hwv(i) by {}
+    assert forall|j: u32| #![trigger post.occ(j)] post.occ(j) implies pre.occ(j) by {
+        assert(f.alive.contains(j) || f.raised.contains(j));
+    }
+    assert forall|j: u32| #![trigger post.hwv(j)] post.hwv(j) >= 0 by { assert(pre.hwv(j) >= 0); }
+    assert forall|j: u32| #![trigger post.occ(j)] post.occ(j) implies (j as nat) < post.max_id && post.hwv(j) >= 1 by {
+        assert(pre.occ(j));
+        assert(post.hwv(j) == pre.hwv(j));
+    }
+    assert forall|j: u32| #![trigger post.hwv(j)] (j as nat) >= post.max_id implies post.hwv(j) == 0 by { assert(pre.hwv(j) == 0); }
+    assert forall|j: u32| #![trigger post.killed.contains(j)] post.killed.contains(j) implies post.occ(j) by {
+        assert(f.killed.contains(j));
+        assert(pre.killed.contains(j) && !in_prefix(d, k, j));
+        assert(pre.occ(j));
+        assert(f.alive.contains(j) == pre.alive.contains(j));
+        assert(f.raised.contains(j) == pre.raised.contains(j));
+    }
+    if exact {
+        let a = ids(d.subrange(0, k as int));
+        assert(post.free == pre.free + a);
+        assert forall|x: int| 0 <= x < post.free.len() implies ((#[trigger] post.free[x]) as nat) < post.max_id && !post.occ(post.free[x]) by {
+            if x < pre.free.len() {
+                assert(post.free[x] == pre.free[x]);
+                assert(!pre.occ(pre.free[x]));
+                assert(!f.alive.contains(pre.free[x]) && !f.raised.contains(pre.free[x]));
+            } else {
+                let y = x - pre.free.len();
+                assert(post.free[x] == a[y]);
+                assert(a[y] == d[y].0);
+                assert(in_prefix(d, k, d[y].0));
+                assert(!f.alive.contains(d[y].0) && !f.raised.contains(d[y].0));
+                assert(pre.occ(d[y].0));
+            }
+        }
+        assert forall|x: int, y: int| 0 <= x < y < post.free.len() implies post.free[x] != post.free[y] by {
+            if y < pre.free.len() {
+            } else if x < pre.free.len() {
+                let yy = y - pre.free.len();
+                assert(post.free[y] == a[yy] && a[yy] == d[yy].0);
+                assert(pre.occ(d[yy].0));
+                assert(!pre.occ(pre.free[x]));
+            } else {
+                let xx = x - pre.free.len();
+                let yy = y - pre.free.len();
+                assert(post.free[x] == a[xx] && post.free[y] == a[yy]);
+                assert(a[xx] == d[xx].0 && a[yy] == d[yy].0);
+            }
+        }
+    }
+    assert(free_ok(post));
+}
+
+pub proof fn lemma_step_inv_defer_kill(pre: AState, e: Entity)
+    requires ainv(pre), pre.current(e),
+    ensures ainv(pre.defer_kill(e)),
+{
+    let post = pre.defer_kill(e);
+    assert forall|j: u32| #![trigger post.hwv(j)] post.hwv(j) >= 0 by { assert(pre.hwv(j) >= 0); }
+    assert forall|j: u32| #![trigger post.occ(j)] post.occ(j) implies (j as nat) < post.max_id && post.hwv(j) >= 1 by { assert(pre.occ(j)); }
+    assert forall|j: u32| #![trigger post.hwv(j)] (j as nat) >= post.max_id implies post.hwv(j) == 0 by { assert(pre.hwv(j) == 0); }
+    assert forall|j: u32| #![trigger post.killed.contains(j)] post.killed.contains(j) implies post.occ(j) by {
+        if j != e.0 { assert(pre.killed.contains(j)); assert(pre.occ(j)); } else { assert(pre.occ(e.0)); }
+    }
+    assert forall|x: int| 0 <= x < post.free.len() implies ((#[trigger] post.free[x]) as nat) < post.max_id && !post.occ(post.free[x]) by {
+        assert(!pre.occ(pre.free[x]));
+    }
+    assert(free_ok(post));
+}
+
+pub proof fn lemma_step_inv_merge(pre: AState)
+    requires ainv(pre),
+    ensures
+        ainv(pre.merged()),
+        forall|j: u32| #![trigger pre.merged().occ(j)] pre.merged().occ(j) == (pre.occ(j) && !pre.killed.contains(j)),
+{
+    broadcast use axiom_sorted_seq;
+    let post = pre.merged();
+    let ks = sorted_seq(pre.killed);
+    assert forall|j: u32| #![trigger post.occ(j)] post.occ(j) == (pre.occ(j) && !pre.killed.contains(j)) by {}
+    assert forall|j: u32| #![trigger post.hwv(j)] post.hwv(j) >= 0 by { assert(pre.hwv(j) >= 0); }
+    assert forall|j: u32| #![trigger post.occ(j)] post.occ(j) implies (j as nat) < post.max_id && post.hwv(j) >= 1 by { assert(pre.occ(j)); }
+    assert forall|j: u32| #![trigger post.hwv(j)] (j as nat) >= post.max_id implies post.hwv(j) == 0 by { assert(pre.hwv(j) == 0); }
+    assert forall|x: int| 0 <= x < post.free.len() implies ((#[trigger] post.free[x]) as nat) < post.max_id && !post.occ(post.free[x]) by {
+        if x < pre.free.len() {
+            assert(post.free[x] == pre.free[x]);
+            assert(!pre.occ(pre.free[x]));
+        } else {
+            let y = x - pre.free.len();
+            assert(post.free[x] == ks[y]);
+            assert(ks.contains(ks[y]));
+            assert(pre.killed.contains(ks[y]));
+            assert(pre.occ(ks[y]));
+        }
+    }
+    assert forall|x: int, y: int| 0 <= x < y < post.free.len() implies post.free[x] != post.free[y] by {
+        if y < pre.free.len() {
+            assert(post.free[x] == pre.free[x] && post.free[y] == pre.free[y]);
+        } else if x < pre.free.len() {
+            let yy = y - pre.free.len();
+            assert(post.free[y] == ks[yy]);
+            assert(ks.contains(ks[yy]));
+            assert(pre.killed.contains(ks[yy]));
+            assert(pre.occ(ks[yy]));
+            assert(post.free[x] == pre.free[x]);
+            assert(!pre.occ(pre.free[x]));
+        } else {
+            let xx = x - pre.free.len();
+            let yy = y - pre.free.len();
+            assert(post.free[x] == ks[xx] && post.free[y] == ks[yy]);
+        }
+    }
+    assert(free_ok(post));
+}
+
 pub proof fn lemma_step_inv(pre: AState, st: Step, post: AState, exact: bool)
     requires ainv(pre), step_ok(pre, st, post, exact), pre.max_id < 0x100_0000 - 1,
     ensures
         ainv(post),
         // hw is monotone, and moves only at a creation, by exactly one, at the created index
-        forall|i: u32| #![trigger (post.hw)(i)] (post.hw)(i) >= (pre.hw)(i),
+        forall|i: u32| #![trigger post.hwv(i)] post.hwv(i) >= pre.hwv(i),
         is_create(st) ==> !pre.occ(pre.next_index()) && post.occ(pre.next_index())
-            && (post.hw)(pre.next_index()) == (pre.hw)(pre.next_index()) + 1,
-        forall|i: u32| #![trigger (post.hw)(i)] !(is_create(st) && i == pre.next_index()) ==> (post.hw)(i) == (pre.hw)(i),
+            && post.hwv(pre.next_index()) == pre.hwv(pre.next_index()) + 1,
+        forall|i: u32| #![trigger post.hwv(i)] !(is_create(st) && i == pre.next_index()) ==> post.hwv(i) == pre.hwv(i),
         // an index becomes occupied only by a creation at that index
         forall|i: u32| #![trigger post.occ(i)] post.occ(i) && !pre.occ(i) ==> is_create(st) && i == pre.next_index(),
 {
     match st {
-        Step::CreateNow => {
-            let i = pre.next_index();
-            if pre.free.len() > 0 {
-                assert(pre.free[pre.free.len() - 1] == i);
-                assert forall|k: int| 0 <= k < post.free.len() implies ((#[trigger] post.free[k]) as nat) < post.max_id && !post.occ(post.free[k]) by {
-                    assert(post.free[k] == pre.free[k]);
-                    assert(pre.free[k] != pre.free[pre.free.len() - 1]);
-                }
-            } else {
-                assert((pre.hw)(i) == 0);
-                assert(!pre.occ(i));
-            }
-            assert forall|j: u32| #![trigger post.occ(j)] post.occ(j) implies (j as nat) < post.max_id && (post.hw)(j) >= 1 by {
-                if j != i { assert(pre.occ(j)); }
-            }
-            assert forall|j: u32| #![trigger post.killed.contains(j)] post.killed.contains(j) implies post.occ(j) by {
-                assert(pre.occ(j));
-            }
-        },
-        Step::CreateDeferred => {
-            let i = pre.next_index();
-            if pre.free.len() > 0 {
-                assert(pre.free[pre.free.len() - 1] == i);
-                assert forall|k: int| 0 <= k < post.free.len() implies ((#[trigger] post.free[k]) as nat) < post.max_id && !post.occ(post.free[k]) by {
-                    assert(post.free[k] == pre.free[k]);
-                    assert(pre.free[k] != pre.free[pre.free.len() - 1]);
-                }
-            } else {
-                assert((pre.hw)(i) == 0);
-                assert(!pre.occ(i));
-            }
-            assert forall|j: u32| #![trigger post.occ(j)] post.occ(j) implies (j as nat) < post.max_id && (post.hw)(j) >= 1 by {
-                if j != i { assert(pre.occ(j)); }
-            }
-            assert forall|j: u32| #![trigger post.killed.contains(j)] post.killed.contains(j) implies post.occ(j) by {
-                assert(pre.occ(j));
-            }
-        },
-        Step::KillNow { d, k } => {
-            lemma_kill_fold_frame(pre, d, k);
-            let f = pre.kill_fold(d, k);
-            let a = ids(d.subrange(0, k as int));
-            assert forall|j: u32| #![trigger post.occ(j)] post.occ(j) implies pre.occ(j) && f.occ(j) by {
-                assert(f.occ(j));
-            }
-            assert forall|j: u32| #![trigger post.killed.contains(j)] post.killed.contains(j) implies post.occ(j) by {
-                assert(f.killed.contains(j));
-                assert(pre.killed.contains(j));
-                if a.contains(j) {
-                    assert(!f.occ(j));
-                    // killed bit was cleared together with the index
-                    lemma_kill_fold_killed_cleared(pre, d, k, j);
-                }
-                assert(f.occ(j) == pre.occ(j));
-            }
-            // free list: old entries stay unoccupied, new entries were just vacated, all distinct
-            lemma_kill_fold_distinct(pre, d, k);
-            if exact {
-            assert forall|x: int| 0 <= x < post.free.len() implies ((#[trigger] post.free[x]) as nat) < post.max_id && !post.occ(post.free[x]) by {
-                if x < pre.free.len() {
-                    assert(post.free[x] == pre.free[x]);
-                    assert(!pre.occ(pre.free[x]));
-                    if f.occ(pre.free[x]) { }
-                } else {
-                    let y = x - pre.free.len();
-                    assert(post.free[x] == a[y]);
-                    assert(a.contains(a[y]));
-                    assert(!f.occ(a[y]));
-                    assert(pre.kill_fold(d, y as nat).current(d[y]));
-                    lemma_kill_fold_frame(pre, d, y as nat);
-                    assert(pre.kill_fold(d, y as nat).occ(d[y].0));
-                    assert(pre.occ(d[y].0));
-                }
-            }
-            assert forall|x: int, y: int| 0 <= x < y < post.free.len() implies post.free[x] != post.free[y] by {
-                if y < pre.free.len() {
-                } else if x < pre.free.len() {
-                    let yy = y - pre.free.len();
-                    assert(post.free[y] == a[yy]);
-                    lemma_kill_fold_frame(pre, d, yy as nat);
-                    assert(pre.kill_fold(d, yy as nat).current(d[yy]));
-                    assert(pre.occ(d[yy].0));
-                    assert(!pre.occ(pre.free[x]));
-                } else {
-                    let xx = x - pre.free.len();
-                    let yy = y - pre.free.len();
-                    assert(post.free[x] == a[xx] && post.free[y] == a[yy]);
-                }
-            }
-            }
-        },
-        Step::KillDeferred { e, ok } => {
-            if ok {
-                assert forall|j: u32| #![trigger post.killed.contains(j)] post.killed.contains(j) implies post.occ(j) by {
-                    if j != e.0 { assert(pre.killed.contains(j)); }
-                }
-            }
-        },
-        Step::Merge => {
-            broadcast use axiom_sorted_seq;
-            let ks = sorted_seq(pre.killed);
-            assert forall|j: u32| #![trigger post.occ(j)] post.occ(j) implies (j as nat) < post.max_id && (post.hw)(j) >= 1 by {
-                assert(pre.occ(j));
-            }
-            assert forall|x: int| 0 <= x < post.free.len() implies ((#[trigger] post.free[x]) as nat) < post.max_id && !post.occ(post.free[x]) by {
-                if x < pre.free.len() {
-                    assert(post.free[x] == pre.free[x]);
-                    assert(!pre.occ(pre.free[x]));
-                } else {
-                    let y = x - pre.free.len();
-                    assert(post.free[x] == ks[y]);
-                    assert(ks.contains(ks[y]));
-                    assert(pre.killed.contains(ks[y]));
-                    assert(pre.occ(ks[y]));
-                }
-            }
-            assert forall|x: int, y: int| 0 <= x < y < post.free.len() implies post.free[x] != post.free[y] by {
-                if y < pre.free.len() {
-                } else if x < pre.free.len() {
-                    let yy = y - pre.free.len();
-                    assert(post.free[y] == ks[yy]);
-                    assert(ks.contains(ks[yy]));
-                    assert(pre.occ(ks[yy]));
-                    assert(!pre.occ(pre.free[x]));
-                } else {
-                    let xx = x - pre.free.len();
-                    let yy = y - pre.free.len();
-                    assert(post.free[x] == ks[xx] && post.free[y] == ks[yy]);
-                }
-            }
-        },
-    }
-}
-
-pub proof fn lemma_kill_fold_killed_cleared(s: AState, d: Seq<Entity>, n: nat, i: u32)
-    requires n <= d.len(), ids(d.subrange(0, n as int)).contains(i),
-    ensures !s.kill_fold(d, n).killed.contains(i), !s.kill_fold(d, n).alive.contains(i), !s.kill_fold(d, n).raised.contains(i),
-    decreases n,
-{
-    let a = ids(d.subrange(0, n as int));
-    if n > 0 {
-        let b = ids(d.subrange(0, n - 1));
-        assert(a =~= b.push(d[n - 1].0));
-        if i != d[n - 1].0 {
-            let k = choose|k: int| 0 <= k < a.len() && a[k] == i;
-            assert(b[k] == i);
-            lemma_kill_fold_killed_cleared(s, d, (n - 1) as nat, i);
-        }
-    } else {
-        assert(a =~= Seq::<u32>::empty());
-    }
-}
-
-// indices killed by a successful prefix are pairwise distinct (each was occupied when its turn came)
-pub proof fn lemma_kill_fold_distinct(s: AState, d: Seq<Entity>, n: nat)
-    requires n <= d.len(), s.kill_ok_upto(d, n),
-    ensures forall|x: int, y: int| 0 <= x < y < n ==> (#[trigger] d[x]).0 != (#[trigger] d[y]).0,
-{
-    assert forall|x: int, y: int| 0 <= x < y < n implies (#[trigger] d[x]).0 != (#[trigger] d[y]).0 by {
-        let f = s.kill_fold(d, y as nat);
-        assert(f.current(d[y]));
-        lemma_kill_fold_frame(s, d, y as nat);
-        let a = ids(d.subrange(0, y));
-        assert(a[x] == d[x].0);
-        assert(a.contains(d[x].0));
-        assert(!f.occ(d[x].0));
+        Step::CreateNow => { lemma_step_inv_create(pre, true); },
+        Step::CreateDeferred => { lemma_step_inv_create(pre, false); },
+        Step::KillNow { d, k } => { lemma_step_inv_kill(pre, d, k, post, exact); },
+        Step::KillDeferred { e, ok } => { if ok { lemma_step_inv_defer_kill(pre, e); } },
+        Step::Merge => { lemma_step_inv_merge(pre); },
     }
 }
 
@@ -483,7 +539,7 @@ pub proof fn lemma_history_inv(states: Seq<AState>, steps: Seq<Step>, exact: boo
 
 pub proof fn lemma_hw_monotone(states: Seq<AState>, steps: Seq<Step>, exact: bool, a: int, b: int, i: u32)
     requires history(states, steps, exact), 0 <= a <= b < states.len(),
-    ensures (states[a].hw)(i) <= (states[b].hw)(i),
+    ensures states[a].hwv(i) <= states[b].hwv(i),
     decreases b - a,
 {
     if a < b {
@@ -508,7 +564,7 @@ pub proof fn lemma_unique_handles(states: Seq<AState>, steps: Seq<Step>, exact: 
 }
 
 // is this handle current (reported alive) in state s?
-pub open spec fn cur(s: AState, h: (u32, int)) -> bool { s.occ(h.0) && (s.hw)(h.0) == h.1 }
+pub open spec fn cur(s: AState, h: (u32, int)) -> bool { s.occ(h.0) && s.hwv(h.0) == h.1 }
 
 // T2 (C02): a created handle is current right after its creation; once it stops being current it never is again.
 //@props C02
@@ -523,9 +579,9 @@ pub proof fn lemma_alive_after_create(states: Seq<AState>, steps: Seq<Step>, exa
 //@props C02
 pub proof fn lemma_dead_stays_dead(states: Seq<AState>, steps: Seq<Step>, exact: bool, h: (u32, int), a: int, b: int)
     requires history(states, steps, exact), 0 <= a <= b < states.len(),
-        1 <= h.1 <= (states[a].hw)(h.0),       // h was issued before state a
+        1 <= h.1 <= states[a].hwv(h.0),       // h was issued before state a
         !cur(states[a], h),
-    ensures !cur(states[b], h), h.1 <= (states[b].hw)(h.0),
+    ensures !cur(states[b], h), h.1 <= states[b].hwv(h.0),
     decreases b - a,
 {
     if a < b {
@@ -537,10 +593,10 @@ pub proof fn lemma_dead_stays_dead(states: Seq<AState>, steps: Seq<Step>, exact:
         if cur(q, h) {
             if p.occ(h.0) {
                 // was occupied with a different generation; hw can only have grown
-                assert((p.hw)(h.0) != h.1);
+                assert(p.hwv(h.0) != h.1);
             } else {
                 assert(is_create(steps[b - 1]) && h.0 == p.next_index());
-                assert((q.hw)(h.0) == (p.hw)(h.0) + 1);
+                assert(q.hwv(h.0) == p.hwv(h.0) + 1);
             }
         }
     }
@@ -602,20 +658,28 @@ pub proof fn lemma_step_complete(pre: AState, st: Step, post: AState)
             lemma_kill_fold_frame(pre, d, k);
             let f = pre.kill_fold(d, k);
             let a = ids(d.subrange(0, k as int));
+            assert(post.free == pre.free + a);
             assert forall|j: u32| #![trigger post.occ(j)] (j as nat) < post.max_id && !post.occ(j) implies post.free.contains(j) by {
-                assert(post.occ(j) == f.occ(j));
-                if a.contains(j) {
-                    let x = choose|x: int| 0 <= x < a.len() && a[x] == j;
+                assert(post.alive.contains(j) == f.alive.contains(j));
+                assert(post.raised.contains(j) == f.raised.contains(j));
+                if in_prefix(d, k, j) {
+                    let x = choose|x: int| 0 <= x < k && x < d.len() && (#[trigger] d[x]).0 == j;
+                    assert(a[x] == d[x].0);
                     assert(post.free[pre.free.len() + x] == j);
                 } else {
-                    assert(f.occ(j) == pre.occ(j));
+                    assert(!pre.occ(j));
                     assert(pre.free.contains(j));
                     let x = choose|x: int| 0 <= x < pre.free.len() && pre.free[x] == j;
                     assert(post.free[x] == j);
                 }
             }
         },
-        Step::KillDeferred { e, ok } => {},
+        Step::KillDeferred { e, ok } => {
+            assert forall|j: u32| #![trigger post.occ(j)] (j as nat) < post.max_id && !post.occ(j) implies post.free.contains(j) by {
+                assert(!pre.occ(j));
+                assert(pre.free.contains(j));
+            }
+        },
         Step::Merge => {
             broadcast use axiom_sorted_seq;
             let ks = sorted_seq(pre.killed);
